@@ -141,6 +141,19 @@ theorem no_operation_left_hanging (cap : Nat) (sc : Script) (ls : List Label) (s
     s.client oid ≠ .waiting ∧ s.client oid ≠ .awaiting :=
   quiescent_all_returned cap sc ls s hcap hr hq hidle oid
 
+/-- ... and that is all that can keep an operation outstanding: in a quiescent state the actor is parked, ended, or inside
+    a hook that waits for its own external event; unless it is inside such a hook, every operation has returned. -/
+theorem outstanding_only_behind_a_waiting_hook (cap : Nat) (sc : Script) (ls : List Label) (s : Sys) (hcap : 0 < cap)
+    (hr : run? (init cap sc) ls = some s) (hq : quiescent s)
+    (hnohook : s.pc ≠ .starting ∧ (∀ m k, s.pc ≠ .inHandler m k) ∧ ∀ a b c, s.pc ≠ .stopping a b c) (oid : Nat) :
+    s.client oid ≠ .waiting ∧ s.client oid ≠ .awaiting := by
+  rcases quiescent_actor_where s hq with h | h | ⟨_, h | ⟨m, k, h⟩ | ⟨a, b, c, h⟩⟩
+  · exact quiescent_all_returned cap sc ls s hcap hr hq (Or.inl h) oid
+  · exact quiescent_all_returned cap sc ls s hcap hr hq (Or.inr h) oid
+  · exact absurd h hnohook.1
+  · exact absurd h (hnohook.2.1 m k)
+  · exact absurd h (hnohook.2.2 a b c)
+
 -- non-vacuity: after a tell and an ask were served the actor is parked, nothing can run, both have returned
 example : ∃ s, run? (init 1 {})
     [.gate, .startDone, .pollTerm, .pollMail, .pollRun,
